@@ -13,14 +13,18 @@ RULE = ("texts through parser.New(text).Advance().ParseFile() in-process: gramma
         "tab, a CR, nothing, a newline, a non-breaking space, a comma, two commas, a leading or trailing comma "
         "(C07leaf, deterministic); thorough adds every string of length <= 4 over 12 relevant "
         "bytes, every 0-2 byte continuation of 7 directive prefixes, and unicode.IsLetter/IsDigit on every code point. "
-        "Compared exactly: the tree of (kind start end) for every node, or the chain of (message kind, start, end) of "
-        "every directives.Error.  Non-trivial: the text parses with >= 1 directive, or fails after >= 1 complete "
+        "Compared exactly: the tree of (kind start end) for every node, or the chain of (message kind, start, end, "
+        "line:col) of every directives.Error, line:col being the RENDERED position Range.Location() that every "
+        "diagnostic of knut prints; about one case in fourteen puts the error behind multi-byte characters on its "
+        "own line (c07AfterMultibyte, half of them within the last runes of the line), counted in the distribution "
+        "(error_after_valid_multibyte_on_line, bytecol_outside_line).  Non-trivial: the text parses with >= 1 directive, or fails after >= 1 complete "
         "line (error position > 0); distinct by input.")
 
 TRUSTED_BASE = [
     "Coq 8.16.1 kernel",
     "extraction (ExtrOcamlBasic only) + OCaml 4.13.1 + drv_c07.ml (hex decoding, rendering, reading the Go tree back)",
-    "harness c07.go (generator; rendering of the Go tree and error chain; recover() around parser and error rendering)",
+    "harness c07.go (generator; rendering of the Go tree, of the error chain and of Range.Location() of every error; "
+    "recover() around parser and error rendering)",
     "Model/Utf8.v is utf8.DecodeRuneInString and Model/UnicodeTables.v (generated from the toolchain by "
     "lib/gen_unicode_tables.go) is unicode.IsLetter/IsDigit: checked by correspondence only (the theorems hold for "
     "every letter/digit classification; decoder facts are proved for Model/Utf8.v)",
@@ -48,10 +52,29 @@ def search_plan(seed):
 
 def _first_err_pos(obs):
     # ERR (w:file 0 12) ...: the end of the outermost range is the failure offset
+    # (an error is rendered as "(code start end @line:col)")
     try:
-        return int(obs.split(")")[0].split()[-1])
+        return int(obs.split(")")[0].split()[3])
     except (ValueError, IndexError):
         return 0
+
+
+def _err_ends(obs):
+    # the End offsets of the errors of a rendered chain
+    out = []
+    for part in obs.split("(")[1:]:
+        f = part.split()
+        try:
+            out.append(int(f[2]))
+        except (ValueError, IndexError):
+            pass
+    return out
+
+
+def _nonascii_before(raw, end):
+    """number of non-ASCII bytes between the start of the line of byte `end` and `end`"""
+    ls = raw.rfind(b"\n", 0, end) + 1
+    return sum(1 for b in raw[ls:end] if b >= 0x80)
 
 
 def nontrivial(c):
@@ -66,7 +89,12 @@ def nontrivial(c):
 
 def distribution(cases):
     d = {"parsed": 0, "error": 0, "panic": 0, "bytes_total": 0, "max_bytes": 0, "directives_total": 0,
-         "kinds": {}, "innermost_error": {}, "with_addons": 0, "invalid_utf8_inputs": 0, "crlf_inputs": 0}
+         "kinds": {}, "innermost_error": {}, "with_addons": 0, "invalid_utf8_inputs": 0, "crlf_inputs": 0,
+         # rendered positions (Range.Location()): error cases in which some error of the chain ends after a
+         # non-ASCII byte on its own line (byte column != rune column), after a VALID multi-byte character,
+         # on a line > 1, and the largest difference between byte column and rendered column
+         "error_after_nonascii_on_line": 0, "error_after_valid_multibyte_on_line": 0, "error_on_later_line": 0,
+         "max_bytecol_minus_col": 0, "bytecol_outside_line": 0, "rendered_positions": 0}
     tags = {"(T ": "transaction", "(O ": "open", "(C ": "close", "(A ": "assertion", "(P ": "price", "(I ": "include"}
     for c in cases:
         if c.op != "C07.parse":
@@ -93,6 +121,32 @@ def distribution(cases):
             d["error"] += 1
             k = o.rsplit("(", 1)[-1].split(" ")[0]
             d["innermost_error"][k] = d["innermost_error"].get(k, 0) + 1
+            raw = bytes.fromhex(c.input)
+            ends = set(_err_ends(o))
+            d["rendered_positions"] += o.count("@")
+            if any(_nonascii_before(raw, e) > 0 for e in ends):
+                d["error_after_nonascii_on_line"] += 1
+            multi = 0
+            for e in ends:
+                ls = raw.rfind(b"\n", 0, e) + 1
+                try:
+                    txt = raw[ls:e].decode("utf-8")
+                    multi = max(multi, len(raw[ls:e]) - len(txt))
+                except ValueError:
+                    pass
+            if multi > 0:
+                d["error_after_valid_multibyte_on_line"] += 1
+                d["max_bytecol_minus_col"] = max(d["max_bytecol_minus_col"], multi)
+            # a byte-counting column (1 + bytes since the last newline) would exceed the line's runes + 1
+            for e in ends:
+                ls = raw.rfind(b"\n", 0, e) + 1
+                le = raw.find(b"\n", e)
+                le = len(raw) if le < 0 else le
+                if e - ls + 1 > len(raw[ls:le].decode("utf-8", "replace")) + 1:
+                    d["bytecol_outside_line"] += 1
+                    break
+            if any(b"\n" in raw[:e] for e in ends):
+                d["error_on_later_line"] += 1
         else:
             d["panic"] += 1
     return d
@@ -101,7 +155,12 @@ def distribution(cases):
 TECHNIQUE = ("Coq proof over a hand-written Gallina model of scanner.go and parser.go (scanner invariant, every primitive "
              "monotone in the offset, ranges [scope start, offset) by construction, induction on loop fuel) + "
              "model/implementation correspondence on generated texts through extraction, with the executable "
-             "specification (wf_tree_b, cover_b, wf_leaves_b, wf_keywords_b, wf_separators_b, determined_b, err_in_bounds_b) evaluated on the Go parser's own output; the "
+             "specification (wf_tree_b, cover_b, wf_leaves_b, wf_keywords_b, wf_separators_b, determined_b, err_in_bounds_b, and "
+             "for the rendered line:col of every error loc_inside_b and offset_of = End) evaluated on the Go parser's own output; "
+             "Range.Location() is modelled as Go's loop over the runes (Spec/LocationSpec.v), its position proved inside the "
+             "text for every offset and proved to denote the offset at every rune boundary by a prefix invariant of the loop "
+             "(Proofs/LocationProofs.v), and every error of the parser proved to end at a rune boundary by a second invariant "
+             "carried compositionally through the monadic model of scanner and parser (Proofs/LocationParserProofs.v); the "
              "lexical classes are proved by inversion of the parser (what each successful primitive consumed) and a "
              "decoding lemma from the scanner's rune chunks to the executable regular expressions over runes; the keywords by "
              "the windows of bytes readWhitespace1/ReadAlternative/ReadString consumed plus the first rune each parse "
@@ -109,7 +168,7 @@ TECHNIQUE = ("Coq proof over a hand-written Gallina model of scanner.go and pars
              "loop invariant for the addon lines (tile_ad_b) and for the @performance list; the summary (every byte "
              "accounted for) by a proof about the specification alone: the five executable statements imply that the "
              "pieces of a tree chain from 0 to |t| (determined_of_specs)")
-LEVEL_TEXT = ("Theorems C07_fuel, C07_err_in_bounds, C07_wf, C07_cover, C07_leaves, C07_keywords, C07_separators, C07_text_determined (Coq, closed under the global context) state "
+LEVEL_TEXT = ("Theorems C07_fuel, C07_err_in_bounds, C07_wf, C07_cover, C07_leaves, C07_keywords, C07_separators, C07_text_determined, C07_location_inside, C07_location_roundtrip, C07_error_ends_at_rune, C07_error_location_inside, C07_error_location_roundtrip (Coq, closed under the global context) state "
               "for every byte list and every letter/digit classification that the parser model terminates within its fuel, "
               "that every error range lies inside the text, that a returned tree is well-formed (wf_tree_b), that the text "
               "outside the directives is whitespace-only and comment lines (cover_b), so gaps and directives interleave to "
@@ -130,7 +189,17 @@ LEVEL_TEXT = ("Theorems C07_fuel, C07_err_in_bounds, C07_wf, C07_cover, C07_leav
               "C07_specs_determine proves this for ANY tree from the five executable statements, so it holds of the Go "
               "parser's tree whenever the check's verdict is ok. The model is tied to scanner.go/parser.go by running both "
               "on the same texts on every check, where wf_tree_b, cover_b, wf_leaves_b, wf_keywords_b, wf_separators_b "
-              "and determined_b are also evaluated on the Go parser's own tree.")
+              "and determined_b are also evaluated on the Go parser's own tree. "
+              "The RENDERED position of an error (the line:col of Range.Location() that every diagnostic prints): "
+              "C07_location_inside states for every text and every offset that the position Go's rune loop computes exists "
+              "in the input (its line exists, its column is at most one past the runes of that line); C07_location_roundtrip "
+              "that at every offset where a rune of the text starts, and at its end, the byte offset computed back from "
+              "line:col is that offset (C07_location_line: the line is one more than the newline bytes in front of it; "
+              "C07_location_off_rune: anywhere else Go renders the end of the text); C07_error_ends_at_rune that every error "
+              "of a chain the parser returns ends at such an offset, hence C07_error_location_inside / "
+              "C07_error_location_roundtrip: the position rendered for every error of the chain lies inside the input and "
+              "identifies the byte the error points at. On every run the Go code's own line:col of every error is compared "
+              "with the model's and evaluated with loc_inside_b and offset_of (verdict FAIL:location).")
 LEVEL_NOTE = ("Trusted: Coq kernel; extraction and the OCaml driver; the Go harness; that Model/Scanner.v and Model/Parser.v "
               "are scanner.go and parser.go (hand-written, validated by the correspondence: exact equality of all ranges and "
               "error chains on every case). Go runtime panics are sampled, not excluded by proof. The lexical classes are "
@@ -139,4 +208,8 @@ LEVEL_NOTE = ("Trusted: Coq kernel; extraction and the OCaml driver; the Go harn
               "the parser). One region of a text is described only loosely: the parser accepts @performance/@accrue lines in "
               "front of EVERY directive but keeps them only in a transaction; in front of open/close/balance/price/include "
               "they are inside the directive's range and belong to no node, and the executable statement says of them "
-              "only that they start with `@` and end with a newline (class PDropped of C07_text_determined).")
+              "only that they start with `@` and end with a newline (class PDropped of C07_text_determined). "
+              "Rendered positions: lines and columns are counted in the runes of Go's walk over the whole text (an invalid "
+              "byte is one rune of width 1, as `range` over a string yields it); that the runes of a line are those of the "
+              "line decoded on its own is not proved. Only Range.Location() as called on parser errors (in-process) is "
+              "tied; the first line of stderr of `knut check`/`balance` is not captured by any op of C07 or C14.")
